@@ -14,23 +14,23 @@ func init() {
 		DesignRef:    "5.11"})
 	props = append(props, &Prop{ID: "C03", Harness: "keepclient", Level: "exploration",
 		QuickRuns: 20000, QuickChunk: 500, QuickWallS: 60, ThoroughRuns: 3000000, ThoroughChunk: 5000, ThoroughWallS: 600, MaxSteps: 100000,
-		Rule: "C03: per run 1-4 services, retry limit, a shared block cache of 1-4 entries, 1-6 blocks (sizes 0..1000) and 1-6 concurrent reader tasks issuing streaming Get (to EOF, or exactly size bytes + Close), cached ReadAt and reads of collection files spanning the blocks; each request draws the service behaviour from {correct, flipped bit, short body with wrong/no/declared-full Content-Length, long body, Content-Length != hint, chunked, empty 200, 404, 408/429/500/503, connection error, slow} over every retry round; the scheduler orders responses. Afterwards faults stop and every block is re-read through the same cache.",
-		Real: []string{"sdk/go/keepclient: KeepClient.Get/ReadAt/getOrHead, HashCheckingReader, BlockCache (instrumented: sim mutex + tasks), CollectionFileReader", "sdk/go/arvados collection filesystem read path (uninstrumented)"},
-		Stub: []string{"Keep services behind the simulated keepclient.HTTPClient"},
+		Rule:         "C03: per run 1-4 services, retry limit, a shared block cache of 1-4 entries, 1-6 blocks (sizes 0..1000) and 1-6 concurrent reader tasks issuing streaming Get (to EOF, or exactly size bytes + Close), cached ReadAt and reads of collection files spanning the blocks; each request draws the service behaviour from {correct, flipped bit, short body with wrong/no/declared-full Content-Length, long body, Content-Length != hint, chunked, empty 200, 404, 408/429/500/503, connection error, slow} over every retry round; the scheduler orders responses. Afterwards faults stop and every block is re-read through the same cache.",
+		Real:         []string{"sdk/go/keepclient: KeepClient.Get/ReadAt/getOrHead, HashCheckingReader, BlockCache (instrumented: sim mutex + tasks), CollectionFileReader", "sdk/go/arvados collection filesystem read path (uninstrumented)"},
+		Stub:         []string{"Keep services behind the simulated keepclient.HTTPClient"},
 		ExpectProbes: []string{"get-ok", "get-read-error", "readat-ok", "readat-error", "file-read-ok", "file-read-error"},
-		LevelText: "seeded exploration of per-request corruption behaviours x retry rounds x response orders x concurrent readers sharing a small cache; every byte handed out without an error is compared with the block the locator names; recovery once faults stop shows no poisoned cache entry",
-		LevelNote: "trusted: the simulated transport's body/Content-Length emulation (NetReply), the oracle's byte comparison; locators always carry the true hash and size (a wrong locator is not a server fault)",
-		Technique: "deterministic simulation: real Keep client read paths over a fault-injecting simulated transport with seeded response ordering; byte-exact oracle + bounded recovery after faults stop",
-		DesignRef: "5.3"})
+		LevelText:    "seeded exploration of per-request corruption behaviours x retry rounds x response orders x concurrent readers sharing a small cache; every byte handed out without an error is compared with the block the locator names; recovery once faults stop shows no poisoned cache entry",
+		LevelNote:    "trusted: the simulated transport's body/Content-Length emulation (NetReply), the oracle's byte comparison; locators always carry the true hash and size (a wrong locator is not a server fault)",
+		Technique:    "deterministic simulation: real Keep client read paths over a fault-injecting simulated transport with seeded response ordering; byte-exact oracle + bounded recovery after faults stop",
+		DesignRef:    "5.3"})
 	props = append(props, &Prop{ID: "C12", Harness: "keepclient", Level: "exploration",
 		QuickRuns: 20000, QuickChunk: 500, QuickWallS: 60, ThoroughRuns: 3000000, ThoroughChunk: 5000, ThoroughWallS: 600, MaxSteps: 100000,
-		Rule: "C12: per run 1-32 services with 27-character, short and odd-length UUIDs, some read-only, a block hash, 0-3 locator hints (+K@ 5-character cluster form, 27-character known/unknown gateway form, other hints, placed around a signature hint); a GET that misses everywhere (404 / 500 / connection error per request, with retries), the same GET against the service set plus/minus one service, and a PUT under refusals are driven over the simulated wire and the ARRIVAL ORDER of requests is the observed history.",
-		Real: []string{"sdk/go/keepclient: getSortedRoots, NewRootSorter, getOrHead, putReplicas, service tables (LoadKeepServicesFromJSON)", "services/keep-balance balanceBlock/ComputeChangeSets (scenario C12B in the balance harness, run by this check as a second batch)"},
-		Stub: []string{"Keep services that miss/refuse behind the simulated transport"},
-		ExpectProbes: []string{"read-with-hints", "membership-checked", "write-under-refusals"},
+		Rule:          "C12: per run 1-32 services with 27-character, short and odd-length UUIDs, some read-only, a block hash, 0-3 locator hints (+K@ 5-character cluster form, 27-character known/unknown gateway form, other hints, placed around a signature hint); a GET that misses everywhere (404 / 500 / connection error per request, with retries), the same GET against the service set plus/minus one service, and a PUT under refusals are driven over the simulated wire and the ARRIVAL ORDER of requests is the observed history.",
+		Real:          []string{"sdk/go/keepclient: getSortedRoots, NewRootSorter, getOrHead, putReplicas, service tables (LoadKeepServicesFromJSON)", "services/keep-balance balanceBlock/ComputeChangeSets (scenario C12B in the balance harness, run by this check as a second batch)"},
+		Stub:          []string{"Keep services that miss/refuse behind the simulated transport"},
+		ExpectProbes:  []string{"read-with-hints", "membership-checked", "write-under-refusals"},
 		PureRideAlong: []string{"the order function itself (md5-based weight) is pure; it is observed here as an ordering invariant over recorded wire histories, not called directly"},
-		LevelText: "seeded exploration of service sets, hashes, hints and miss/refusal outcomes; oracle = independent reference order written from the property text, compared with the sequence (reads) and prefix-closed set (writes) of requests observed on the simulated wire, incl. retries and a membership change",
-		LevelNote: "trusted: reference order implementation (md5hex(hash+uuid[12:]) descending), the transport's arrival log; the Python client (keep.py) is not executed",
-		Technique: "deterministic simulation: real Keep client read/write paths against missing/refusing simulated services; history-ordering invariant against an independent reference order",
-		DesignRef: "5.12"})
+		LevelText:     "seeded exploration of service sets, hashes, hints and miss/refusal outcomes; oracle = independent reference order written from the property text, compared with the sequence (reads) and prefix-closed set (writes) of requests observed on the simulated wire, incl. retries and a membership change",
+		LevelNote:     "trusted: reference order implementation (md5hex(hash+uuid[12:]) descending), the transport's arrival log; the Python client (keep.py) is not executed",
+		Technique:     "deterministic simulation: real Keep client read/write paths against missing/refusing simulated services; history-ordering invariant against an independent reference order",
+		DesignRef:     "5.12"})
 }
